@@ -416,6 +416,25 @@ impl C12 {
                                 Ok((sl, n, rest)) => v.push(("Ipv6ExtensionsSlice::from_slice", n.0, rest.is_empty() && sl.slice().len() == out.len())),
                                 Err(_) => v.push(("Ipv6ExtensionsSlice::from_slice", 0, false)),
                             }
+                            // the io::Read doors
+                            {
+                                let mut cur = std::io::Cursor::new(&out[..]);
+                                match Ipv6Extensions::read(&mut cur, IpNumber(c.first)) {
+                                    Ok((e, n)) => v.push(("Ipv6Extensions::read", n.0, e == exts && cur.position() as usize == out.len())),
+                                    Err(_) => v.push(("Ipv6Extensions::read", 0, false)),
+                                }
+                                let cur = std::io::Cursor::new(&out[..]);
+                                let mut lr = etherparse::io::LimitedReader::new(cur, out.len(), LenSource::Slice, 0, err::Layer::Ipv6ExtHeader);
+                                match Ipv6Extensions::read_limited(&mut lr, IpNumber(c.first)) {
+                                    Ok((e, n)) => v.push(("Ipv6Extensions::read_limited", n.0, e == exts)),
+                                    Err(_) => v.push(("Ipv6Extensions::read_limited", 0, false)),
+                                }
+                                let mut cur = std::io::Cursor::new(&pkt[..]);
+                                match IpHeaders::read(&mut cur) {
+                                    Ok((h, n)) => v.push(("IpHeaders::read", n.0, h == want_h && cur.position() as usize == 40 + out.len())),
+                                    Err(_) => v.push(("IpHeaders::read", 0, false)),
+                                }
+                            }
                             v
                         });
                         match doors {
